@@ -30,7 +30,7 @@ ASSUMPTIONS = [
     "inputs on which the derived keys collide are not judged (the key would then be altered by the merge strategy, "
     "which is C05's subject); they are skipped and counted",
     "a listed id attribute that is present without any value is not generated (the statement does not say whether it "
-    "counts as present)",
+    "counts as present); an empty dict/list/string id_spec is not generated (indistinguishable from 'not given')",
     "'n counting 1,2,... in input order' continues across create_db and a later update() of the same database",
     "features inferred by the GTF importer (source gffutils_derived) are looked up but their keys are judged by C03",
     "the callables are pure functions of the feature; both sides call the same function, so only the importer's use of "
@@ -256,7 +256,7 @@ def compare(ctx, case, db, expected, recs, branches, deriver, what):
 
 def run(ctx):
     rng = ctx.rng
-    for _ in range(ctx.budget(3600, 160000)):
+    for _ in range(ctx.budget(3600, 64000)):
         case = G.gen_case(rng)
         branches = execute(ctx, case)
         if branches is None:
